@@ -185,7 +185,25 @@ func sameField(a, b *Node) bool {
 func (g *PredGen) Atom(depth int) *Node {
 	r := g.R
 	for {
-		switch r.Intn(18) {
+		switch r.Intn(19) {
+		case 18: // two concatenations that start at the same field, alive at the same time
+			if g.NoKeyPin {
+				continue
+			}
+			f := Key
+			if r.Chance(1, 3) {
+				f = Value
+			}
+			sfx := []string{"a", "b", "/", ":", "#", "zz", ""}
+			a, b := Bin("+", f(), Str(sfx[r.Intn(len(sfx))])), Bin("+", f(), Str(sfx[r.Intn(len(sfx))]))
+			op := cmpS[r.Intn(len(cmpS))]
+			if op == "~=" {
+				op = "!="
+			}
+			if r.Chance(1, 4) {
+				return Bin(op, Bin("+", Key(), Str("#")), Value())
+			}
+			return Bin(op, a, b)
 		case 17: // BETWEEN with a literal lower bound and an upper bound computed from the pair
 			if g.NoKeyPin || g.Avoid["computed-between-bound"] {
 				continue
